@@ -107,7 +107,8 @@ def build_circuit(E, x, y, layers):
 def exprs_l(E, x, y, l):
     import sympy
     R = sympy.Rational
-    return E.choice('expr%d' % l, [x, 2 * x + y, x / 2 - y + R(1, 4), x * y])
+    opts = [x, 2 * x + y, x / 2 - y + R(1, 4), x * y]
+    return E.choice('expr%d' % l, opts if l == 0 else opts[:2])
 
 
 def circuits(E, layers):
